@@ -36,6 +36,9 @@ type c20Op struct {
 	Dur  time.Duration
 }
 
+// delays (ms) between the watcher noticing a change and its rebuild
+var watchDelays = []int{0, 0, 40, 500, 2500}
+
 var sleepChoices = []time.Duration{time.Millisecond, 60 * time.Millisecond, 300 * time.Millisecond, 2 * time.Second, 10 * time.Second}
 
 var reMarker = regexp.MustCompile(`M([0-9]+)@([0-9]+)`)
@@ -247,7 +250,9 @@ func scenarioC20(rc *RunCtx) *Violation {
 	d := newDisk(g)
 	d.Gran = 1
 	p.WriteTo(d, false)
+	dumpProject(p, o)
 
+	watchDelay := watchDelays[g.n(len(watchDelays))]
 	nClients := 2 + g.n(3)
 	progs := make([][]c20Op, nClients)
 	watchUsed := false
@@ -312,7 +317,7 @@ func scenarioC20(rc *RunCtx) *Violation {
 					case opDispose:
 						ctx.Dispose()
 					case opWatch:
-						if err := ctx.Watch(api.WatchOptions{}); err != nil {
+						if err := ctx.Watch(api.WatchOptions{Delay: watchDelay}); err != nil {
 							res = "err:" + err.Error()
 						}
 					case opSleep:
